@@ -449,7 +449,7 @@ def FastOk (fuel : Nat) (r : Reader) (res : Res (Option Token)) : Prop :=
   res = nextOptFallback fuel r ∨
   ∃ adv t r', fbLoop (r.position == 0) r.win .top 0 r.bom = (r.bom, .tok adv t) ∧
     res = .ok r' (some t) ∧
-    (advance r adv = some r' ∨ (r.win[adv]? = some 32 ∧ advance r (adv + 1) = some r'))
+    (advance r adv = some r' ∨ (r.win[adv]? = some 32 ∧ advance r (adv + 1) = some r' ∧ ∃ b, t = .unquoted b))
 
 theorem advance_some (r : Reader) (k : Nat) (hk : k ≤ r.win.length) : ∃ r', advance r k = some r' :=
   ⟨{ r with win := r.win.drop k, consumed := r.consumed + k }, by simp [TextReader.advance, hk]⟩
@@ -502,7 +502,7 @@ theorem fast_unq (fuel : Nat) (r : Reader) (p : Nat) (c : UInt8)
     by_cases h32 : (c' == 32) = true
     · obtain ⟨r', ha⟩ := advance_some r (j + 1) (by omega)
       have hc32 : c' = 32 := by simpa using h32
-      exact ⟨j, _, r', hscan, by simp only [h32, if_true, ha], Or.inr ⟨by rw [hgj, hc32], ha⟩⟩
+      exact ⟨j, _, r', hscan, by simp only [h32, if_true, ha], Or.inr ⟨by rw [hgj, hc32], ha, _, rfl⟩⟩
     · obtain ⟨r', ha⟩ := advance_some r j (by omega)
       have h32' : (c' == 32) = false := by simpa using h32
       exact ⟨j, _, r', hscan, by simp only [h32', Bool.false_eq_true, if_false, ha], Or.inl ha⟩
@@ -677,7 +677,7 @@ theorem nextOpt_spec (r : Reader) (pos : Nat) (bom : Bom) (d : Bytes) (fuel : Na
     unfold OutQOk specStep
     rw [hstab]
     simp only [interp]
-    rcases hadv with ha | ⟨h32, ha⟩
+    rcases hadv with ha | ⟨h32, ha, _⟩
     · have hk : adv ≤ r.win.length := by
         unfold TextReader.advance at ha; split at ha
         · assumption
